@@ -894,9 +894,16 @@ def run(case, focus=None):
                         ups = upstream(n, strict=(target is d))
                         have = [u for u in ups if w.devs[u].content > 0]
                         if have:
-                            add(out["c05"], "rest:servable-request-queued",
+                            # known finding: a device serves one queued request per entering ball and always takes the head of
+                            # its queue; a request of the device for balls for itself that no source can deliver stays at the
+                            # head and the eject request behind it is never served (head-of-line blocking)
+                            own_unservable = target is not d and any(
+                                tg is d and not [u for u in upstream(n, strict=True) if w.devs[u].content > 0]
+                                for (tg, _p) in d._ball_requests)     # pylint: disable=protected-access
+                            add(out["c05"], "rest:servable-request-queued" + (":behind-own-unservable-request" if own_unservable else ""),
                                 "at rest (%s) %s still queues a request for %s although %s physically holds a ball" %
-                                (where, n, target.name, have), t=rig.now)
+                                (where, n, target.name, have) + (" (its queue also holds requests for balls for itself "
+                                                                 "that no source can deliver)" if own_unservable else ""), t=rig.now)
                 # every request is delivered or still queued
                 for tname, r in requests.items():
                     queued = sum(1 for d in mdev.values() for (tg, _pc) in d._ball_requests   # pylint: disable=W0212
